@@ -92,9 +92,18 @@ class AutonomousModeSelector:
             autonomous_pkg = importlib.import_module(autonomous_pkgname)
         except ImportError as e:
             if e.name not in [autonomous_pkgname, autonomous_pkgname.split(".")[0]]:
-                raise
+                # the package exists but something it imports does not:
+                # same policy as for the modules inside it
+                if not wpilib.DriverStation.isFMSAttached():
+                    raise
 
             # Don't kill the robot because they didn't create an autonomous package
+            logger.warning("Cannot load the '%s' package", autonomous_pkgname)
+        except Exception:
+            # the package's own code is broken: same policy as for its modules
+            if not wpilib.DriverStation.isFMSAttached():
+                raise
+
             logger.warning("Cannot load the '%s' package", autonomous_pkgname)
         else:
             pkgdirs = []
